@@ -240,4 +240,9 @@ class Bw64Writer(object):
         self._buffer.write(b'bext')
         self._buffer.write(struct.pack('<I', len(bextChunkData)))
         self._buffer.write(bextChunkData)
+
+        # pad to an even number of bytes, as for axml
+        if len(bextChunkData) & 1:
+            self._buffer.write(b'\0')
+
         self._bextChunkWritten = True
